@@ -504,6 +504,13 @@ func RunFull(c *gen.Ctx, prop string, cfgs []xeng.Config, nops, perOp int, singl
 	if err := meta.AddCaseFile(cf, descr); err != nil {
 		return err
 	}
+	if !schedules {
+		ndc, err := directiveChains(c, prop, cfgs, meta)
+		if err != nil {
+			return err
+		}
+		meta.Notes = append(meta.Notes, fmt.Sprintf("%d executions over every assignment of {calls next, answers null, fails, panics} to the links of directive chains made of a field's own directives and those of its return type (1 to 4 links): invocation order, outcome and recover count compared with Model.DirChain", ndc))
+	}
 	if schedules {
 		nstray, err := strayElementSchedules(c.OutDir, meta, c.Thorough())
 		if err != nil {
